@@ -39,6 +39,7 @@ package hessian
 //@   loop 3 invariant [C16:extract-entries] rangeindex + 1 <= R.mapLen(v) && @nrec == old(@nrec) + 2 * (rangeindex + 1) && @dyntrue == old(@dyntrue) + 1 && @dyncalls == old(@dyncalls) + 1
 //@   loop 4 invariant [C16:extract-fields] 0 <= i && i <= R.numField(v) && @nrec == old(@nrec) + i && @dyntrue == old(@dyntrue) + 1 && @dyncalls == old(@dyncalls) + 1
 //@   proves  [C16:extract-one-extractor-call] @dyncalls <= old(@dyncalls) + 1
+//@   proves  [C16:extractor-reached-unless-nil-interface] @dyncalls == old(@dyncalls) ==> R.kind(now(v)) == K.Interface
 //@   proves  [C16:closure-slice-nonempty] @dyntrue == old(@dyntrue) + 1 && (R.kind(now(v)) == K.Array || R.kind(now(v)) == K.Slice) && R.len(now(v)) != 0 ==> @nrec == old(@nrec) + R.len(now(v))
 //@   proves  [C16:closure-slice-empty]    @dyntrue == old(@dyntrue) + 1 && (R.kind(now(v)) == K.Array || R.kind(now(v)) == K.Slice) && R.len(now(v)) == 0 ==> @nrec == old(@nrec) + 1
 //@   proves  [C16:closure-map-empty]      @dyntrue == old(@dyntrue) + 1 && R.kind(now(v)) == K.Map && R.len(now(v)) == 0 ==> @nrec == old(@nrec) + 2
